@@ -14,7 +14,7 @@ MANIFEST = {"engine": "E1"}
 
 def units(tier, seed):
     out = []
-    for p in (1, 2, 3):
+    for p in (0, 1, 2, 3):
         out += _g.pdag_units("pdag", p, 1)
         out += _g.dag_units("wdag", p, 1)
     out += _g.pdag_units("pdag", 4, 16)
